@@ -4,8 +4,10 @@
 package ctl17
 
 import (
+	"cmp"
 	"fmt"
 	"math/rand"
+	"slices"
 	"sort"
 	"time"
 )
@@ -115,4 +117,66 @@ func MinMax(m map[string]box) (res box) {
 		}
 	}
 	return res
+}
+
+// SortFuncTotal must stay silent: three-way comparison by rank, then by the element.
+func SortFuncTotal(m map[string]int) []string {
+	var ks []string
+	for k := range m {
+		ks = append(ks, k)
+	}
+	slices.SortFunc(ks, func(a, b string) int {
+		return cmp.Or(cmp.Compare(m[a], m[b]), cmp.Compare(a, b))
+	})
+	return ks
+}
+
+// SortFuncPartial must be reported: the three-way comparison stops at the rank.
+func SortFuncPartial(m map[string]int) []string {
+	var ks []string
+	for k := range m {
+		ks = append(ks, k)
+	}
+	slices.SortFunc(ks, func(a, b string) int { return cmp.Compare(m[a], m[b]) })
+	return ks
+}
+
+type byRank struct {
+	names []string
+	rank  map[string]int
+}
+
+func (s *byRank) Len() int      { return len(s.names) }
+func (s *byRank) Swap(i, j int) { s.names[i], s.names[j] = s.names[j], s.names[i] }
+func (s *byRank) Less(i, j int) bool {
+	if ri, rj := s.rank[s.names[i]], s.rank[s.names[j]]; ri != rj {
+		return ri < rj
+	}
+	return s.names[i] < s.names[j]
+}
+
+// SorterType must stay silent: the same order as a sort.Interface.
+func SorterType(m map[string]int) []string {
+	var ks []string
+	for k := range m {
+		ks = append(ks, k)
+	}
+	sort.Sort(&byRank{names: ks, rank: m})
+	return ks
+}
+
+type byPos struct{ names []string }
+
+func (s byPos) Len() int           { return len(s.names) }
+func (s byPos) Swap(i, j int)      { s.names[i], s.names[j] = s.names[j], s.names[i] }
+func (s byPos) Less(i, j int) bool { return len(s.names[i]) < len(s.names[j]) || i < j }
+
+// SorterByPosition must be reported: the comparison looks at the positions.
+func SorterByPosition(m map[string]int) []string {
+	var ks []string
+	for k := range m {
+		ks = append(ks, k)
+	}
+	sort.Sort(byPos{ks})
+	return ks
 }
